@@ -1229,6 +1229,23 @@ func runDropEmpty(c *core.Ctx) {
 					if !isBin {
 						continue
 					}
+					// the removal is governed by this test only if one of its branches gets past the
+					// removal (`if len(x) == 0 { panic(…) }` before an unconditional delete governs nothing)
+					if cd.At != nil && len(cd.At.Succs) == 2 {
+						// within the current iteration: not around the enclosing loops' back edges
+						avoid := map[*ssa.BasicBlock]bool{}
+						for h := an.LoopHeaderOf(cd.At); h != nil; h = an.LoopHeaderOf2(h) {
+							if h != cd.At { // a loop's own exit test does not "get past" what follows the loop
+								avoid[h] = true
+							}
+						}
+						gets := func(s *ssa.BasicBlock) bool {
+							return s == call.Block() || (!avoid[s] && an.Reachable(s, call.Block(), nil, avoid))
+						}
+						if gets(cd.At.Succs[0]) && gets(cd.At.Succs[1]) {
+							continue
+						}
+					}
 					for _, side := range []ssa.Value{bin.X, bin.Y} {
 						sc, isCall := side.(*ssa.Call)
 						if !isCall {
